@@ -237,6 +237,38 @@ pub fn record_lru(args: &Args) {
         // i.e. several keys differ only above bit 32 (address-like keys; a cache that keeps a 32-bit digest of the key confuses them)
         let wide_keys = rng.coin();
         let key_of = move |k: usize| -> u64 { if wide_keys { (k % 3) as u64 | ((k as u64 + 1) << 33) } else { k as u64 } };
+        if cap >= 1 && rng.chance(1, 3) {
+            // scripted: key K sits in slot i of a table of S slots and its hash has bit S set and bit 2S clear; filler keys (hash = key)
+            // run through every hash that is NOT congruent to i modulo S, so no filler ever lands in slot i or in K's later home, and every
+            // filler gets a slot of its own (the table keeps filling up); K gets a NEW value after
+            // every filler and is read back every time, while the fillers push the table through several growths (a growth that leaves
+            // a copy behind, or brings an old copy back, shows as a value older than the last one stored)
+            let slots = 1u64 << cap;
+            let i = rng.below(slots as usize) as u64;
+            let kk = i + slots;
+            let ins = |lru: &mut Lru<u64, u64>, k: u64, out: &mut Out, next_val: &mut u64| {
+                let v = *next_val;
+                *next_val += 1;
+                match guarded(|| lru.insert(k, v, k)) {
+                    Ok(()) => out.emit(json!({"ev": "lins", "k": k, "v": v, "h": k})),
+                    Err(m) => out.emit(json!({"ev": "lins", "k": k, "v": v, "h": k, "panic": m})),
+                }
+            };
+            let get = |lru: &Lru<u64, u64>, k: u64, out: &mut Out| match guarded(|| lru.get(k, k)) {
+                Ok(r) => out.emit(json!({"ev": "lget", "k": k, "h": k, "ret": r.map(|x| x as i64).unwrap_or(-1)})),
+                Err(m) => out.emit(json!({"ev": "lget", "k": k, "h": k, "panic": m})),
+            };
+            ins(&mut lru, kk, &mut out, &mut next_val);
+            for t in (0..(9 * slots)).filter(|t| t % slots != i) {
+                ins(&mut lru, t, &mut out, &mut next_val);
+                get(&lru, kk, &mut out);
+                if t % 2 == 0 {
+                    ins(&mut lru, kk, &mut out, &mut next_val);
+                    get(&lru, kk, &mut out);
+                }
+            }
+            continue;
+        }
         for _ in 0..len {
             let k = rng.below(nkeys);
             let h = if per_call { rng.below(hrange) as u64 } else { hfun[k] };
